@@ -160,7 +160,7 @@ def handle_quic_packet(packet: Packet, keylog, quic_sessions: list[QuicSession],
     for session in quic_sessions:
         # first try matching connection IDs
         if header_type == QuicHeaderType.LONG:
-            if dcid in session.client_cids or dcid in session.server_cids:
+            if len(dcid) > 0 and (dcid in session.client_cids or dcid in session.server_cids):
                 session.handle_packet(packet, dcid, quic_version)
                 return
         else:
